@@ -246,8 +246,8 @@ pub fn exec(case: &J, acc: &mut Acc) -> Result<(), Fail> {
                     let span = n - 1 - furthest_line as usize;
                     let target = furthest_line as usize + 1 + (next_policy(span as u64) as usize);
                     h.apply(&HostOp::ChoosePath { path: format!("s{target}"), reset: true, args: vec![] });
+                    // (same play-through: jumps only go forward, so no site can fire twice)
                     furthest_line = -1;
-                    segment += 1;
                     segment_start = target;
                     jumped = true;
                     continue;
@@ -342,7 +342,7 @@ pub fn exec(case: &J, acc: &mut Acc) -> Result<(), Fail> {
                     let err_knot = furthest_line.max(0) as usize;
                     if choice == 0 {
                         break 'outer;
-                    } else if choice == 1 || !handler {
+                    } else if choice == 1 {
                         h.apply(&HostOp::Reset);
                         if !h.story.get_current_errors().is_empty() || !h.story.get_current_warnings().is_empty() {
                             return Err(Ok(fail("reset-keeps-messages", format!("after reset_state: errors {:?} warnings {:?}", h.story.get_current_errors(), h.story.get_current_warnings()))));
@@ -354,7 +354,9 @@ pub fn exec(case: &J, acc: &mut Acc) -> Result<(), Fail> {
                             break 'outer;
                         }
                     } else {
-                        // redirect past the failing knot
+                        // redirect past the failing knot. Without a handler the error stays listed,
+                        // so the story must either stay stopped or, if it does continue, never
+                        // hand the old error out again (the accounting below sees that)
                         let mut target = err_knot + 1;
                         // the failing knot is the one after the last delivered line when its own line failed
                         if target >= n {
@@ -366,7 +368,6 @@ pub fn exec(case: &J, acc: &mut Acc) -> Result<(), Fail> {
                         h.apply(&HostOp::ChoosePath { path: format!("s{target}"), reset: true, args: vec![] });
                         // sites between the failing knot and the target are skipped, not passed
                         furthest_line = -1;
-                        segment += 1;
                         segment_start = target;
                     }
                 }
